@@ -209,7 +209,7 @@ def make_cases(ctx, listing, thorough):
     others = listing["others"].split(",")
     sets = {"E1": listing["E1"], "E2": listing["E2"]}
     cases = []
-    nval = 8 if thorough else 3
+    nval = 30 if thorough else 3
     # structs: every shape x byte order x prefix 0..15
     for sh in shapes:
         for bo in ("le", "be"):
@@ -219,7 +219,7 @@ def make_cases(ctx, listing, thorough):
     # has_sig: every shape asked for every other body
     for sh in shapes:
         for ot in others:
-            for _ in range(3 if thorough else 1):
+            for _ in range(12 if thorough else 1):
                 cases.append({"op": "HS", "shape": sh, "bo": r.choice(("le", "be")), "other": ot, "toks": gen_value(r, ot)})
     # enums: every case x byte order x prefix
     for name, desc in sets.items():
@@ -236,8 +236,10 @@ def make_cases(ctx, listing, thorough):
                 continue
             prefixes = range(16) if thorough else sorted(r.sample(range(16), 8))
             for prefix in prefixes:
-                cases.append({"op": "EO", "set": name, "desc": desc, "bo": r.choice(("le", "be")), "prefix": prefix, "other": ot,
-                              "toks": gen_value(r, ot)})
+                for bo in (("le", "be") if thorough else (r.choice(("le", "be")),)):
+                    for _ in range(3 if thorough else 1):
+                        cases.append({"op": "EO", "set": name, "desc": desc, "bo": bo, "prefix": prefix, "other": ot,
+                                      "toks": gen_value(r, ot)})
     return cases
 
 
@@ -250,6 +252,28 @@ def corpus_cases():
                 continue
             out.append(eval(line, {"__builtins__": {}}))
     return out
+
+
+def private_driver():
+    """build the extracted driver and run it from a private copy: ocaml_build relinks ocaml/c16/driver on every call,
+    so a concurrent run of this check could otherwise replace the file while it is being executed"""
+    import shutil
+    import subprocess
+    os.makedirs(vlib.SCRATCH, exist_ok=True)
+    mine = os.path.join(vlib.SCRATCH, "c16_driver_%d" % os.getpid())
+    last = ""
+    for _ in range(4):
+        drv = vlib.ocaml_build("c16")
+        try:
+            shutil.copy(drv, mine)
+            os.chmod(mine, 0o755)
+            p = subprocess.run([mine], input="PING\n", stdout=subprocess.PIPE, stderr=subprocess.PIPE, text=True, timeout=60)
+            if p.returncode == 0 and p.stdout.strip() == "?":
+                return mine
+            last = "rc=%s out=%r" % (p.returncode, p.stdout[:100])
+        except OSError as e:
+            last = str(e)
+    raise vlib.BrokenTie("extracted c16 driver could not be started", last)
 
 
 def run_cases(exe, drv, cases):
@@ -279,12 +303,17 @@ def run(ctx):
         ctx.try_proof()
     exe = vlib.harness_build(["c16"])["c16"]
     vlib.coq_make(["Wire/C16Ops.vo"])
-    drv = vlib.ocaml_build("c16")
-
-    _, out, _ = vlib.run_lines(exe, [], ["LIST"])
-    listing, _ = fields(out[0])
-    cases = corpus_cases() + make_cases(ctx, listing, thorough)
-    impl, model = run_cases(exe, drv, cases)
+    drv = private_driver()
+    try:
+        _, out, _ = vlib.run_lines(exe, [], ["LIST"])
+        listing, _ = fields(out[0])
+        cases = corpus_cases() + make_cases(ctx, listing, thorough)
+        impl, model = run_cases(exe, drv, cases)
+    finally:
+        try:
+            os.remove(drv)
+        except OSError:
+            pass
     for c, li, lm in zip(cases, impl, model):
         line = impl_line(c)
         nontrivial = not (c["op"] == "HS" and not erased(c["other"]).startswith("("))
@@ -313,8 +342,14 @@ def replay(ctx, body):
     d = body["data"]
     exe = vlib.harness_build(["c16"])["c16"]
     vlib.coq_make(["Wire/C16Ops.vo"])
-    drv = vlib.ocaml_build("c16")
-    impl, model = run_cases(exe, drv, [d["case"]])
+    drv = private_driver()
+    try:
+        impl, model = run_cases(exe, drv, [d["case"]])
+    finally:
+        try:
+            os.remove(drv)
+        except OSError:
+            pass
     print("case :", d["line"])
     print("impl :", impl[0])
     print("model:", model[0])
